@@ -121,11 +121,6 @@ def main():
     }
     R.add_samples([{"spec": spec_of(c), "label": c["coq"]} for c in cs if c.get("nontrivial")][:2])
 
-    # harness-level inconsistencies (an answer that is nobody's, a node called twice, a blocked call
-    # that does not return on cancellation ...)
-    for c in cs:
-        if c.get("problems"):
-            R.violation("harness-inconsistency", "; ".join(c["problems"]) + " :: " + describe(c), spec_of(c))
     if not replay and data.get("instrument_empty") != "refused":
         R.broke("correspondence:eth2wrap.Instrument accepts an empty primary list", "")
 
@@ -165,6 +160,11 @@ def main():
                 nrej += 1
                 if nrej <= 20:
                     R.broke("correspondence:Multi model does not reproduce observed call %d" % cid, describe(c) + "\n" + c["coq"])
+    # harness-level inconsistencies (an answer that is nobody's, a node called twice, a blocked call
+    # that does not return on cancellation ...), after the monitor's findings
+    for c in cs:
+        if c.get("problems"):
+            R.violation("harness-inconsistency", "; ".join(c["problems"]) + " :: " + describe(c), spec_of(c))
     R.coverage["traces_validated_against_impl"] = len(cs)
     R.coverage["monitor_failures"] = nmon
     R.coverage["model_rejections"] = nrej
